@@ -35,10 +35,10 @@ def C(x):
 
 
 def run(repo, key, inline=(), config=None, facts=None, types=None, max_paths=256,
-        inline_ctor=(), symbolic_globals=False):
+        inline_ctor=(), symbolic_globals=False, unroll=False):
     f = repo.func(key) if isinstance(key, str) else key
     ip = Interp(repo, inline=inline, facts=facts, types=types, max_paths=max_paths,
-                inline_ctor=inline_ctor, symbolic_globals=symbolic_globals)
+                inline_ctor=inline_ctor, symbolic_globals=symbolic_globals, unroll=unroll)
     try:
         paths = ip.run(f, config=config)
     except PathLimit as e:
@@ -228,3 +228,26 @@ def seg(func, node):
 def stmts_of(func):
     return [s for s in func.node.body
             if not (isinstance(s, ast.Expr) and isinstance(s.value, ast.Constant))]
+
+
+def run_snippet(repo, module, src, env=None, inline=(), inline_ctor=(), facts=None, types=None, unroll=True,
+                max_paths=512):
+    """Abstractly execute a synthetic statement list in the context of
+    ``module`` (used to compose several repository functions symbolically)."""
+    from .state import State
+    from .model import FuncInfo
+    tree = ast.parse(src)
+    fn = ast.parse('def __snippet__():\n    pass').body[0]
+    fn.body = tree.body
+    fi = FuncInfo(repo.modules[module], '__snippet__', fn)
+    ip = Interp(repo, inline=inline, inline_ctor=inline_ctor, facts=facts, types=types, unroll=unroll,
+                max_paths=max_paths)
+    ip.cur = fi
+    ip.stack.append('<snippet>')
+    st = State()
+    st.env.update(env or {})
+    try:
+        cont, done = ip.exec_block(tree.body, [st])
+    except PathLimit as e:
+        raise AnalysisError(str(e))
+    return cont, done, ip
